@@ -37,7 +37,7 @@ func init() { register(c11{}) }
 func (c11) ID() string    { return "C11" }
 func (c11) Level() string { return "exploration" }
 func (c11) Rule() string {
-	return "each trial is a fresh OS process (package state cannot be reset): N in {2,3,4,8,16,64} caller tasks each execute 1-6 drawn operations (From16Bit/To16Bit/From8Bit/To8Bit of the three curve packages; LineariseColor/EncodeColor of the four spaces; LineariseImage/EncodeImage and ConvertImageToRGBA64 on task-private images with parallelism 1-4, i.e. nested worker tasks; Bradford adaptation; the four loaders on task-private simulated sources) under a drawn schedule (SERIAL-PERM, RANDOM-WALK, PCT d<=3, SITE-BIAS with preemption points inside */lut.go and the worker closures); in first-use trials the first operation of at least two tasks needs the same lazily built table. A second simulated phase in the same process exercises subsequent calls. Oracles: (1) the race detector, which cannot see the simulator's hand-offs, reports nothing; (2) every operation's result during the run == its result re-evaluated sequentially after the final join == its solo value computed in another process; (3) no deadlock, no panic. Non-trivial: >= 2 caller tasks executed instrumented steps and (first-use trials) touched the same table; distinct = hash of the (task, site) step sequences of both phases."
+	return "each trial is a fresh OS process (package state cannot be reset): N in {2,3,4,8,16,64} caller tasks each execute 1-6 drawn operations (From16Bit/To16Bit/From8Bit/To8Bit of the three curve packages; LineariseColor/EncodeColor of the four spaces; the colour constructors and converters of the four spaces chained through XYZ and Lab (ColorFromNRGBA / FromEncodedColor / FromLinearColor, ToXYZ, ToLAB, ColorFromLAB, ColorFromXYZ, ToNRGBA / ToRGBA / ToRGBA64); LineariseImage/EncodeImage (2-5 rows, or 65-144 rows, half of those in place) and ConvertImageTo{RGBA64,NRGBA,RGBA} of YCbCr / NRGBA / RGBA64 images on task-private images with parallelism 1-4, i.e. nested worker tasks; Bradford adaptation; the four loaders on task-private simulated sources) under a drawn schedule (SERIAL-PERM, RANDOM-WALK, PCT d<=3, SITE-BIAS with preemption points inside */lut.go and the worker closures); in first-use trials the first operation of at least two tasks needs the same lazily built table. A second simulated phase in the same process exercises subsequent calls. Oracles: (1) the race detector, which cannot see the simulator's hand-offs, reports nothing; (2) every operation's result during the run == its result re-evaluated sequentially after the final join == its solo value computed in another process; (3) no deadlock, no panic. Non-trivial: >= 2 caller tasks executed instrumented steps and (first-use trials) touched the same table; distinct = hash of the (task, site) step sequences of both phases."
 }
 func (c11) Exhaustive(string) string { return "" }
 func (c11) Runs(tier string) int64 {
@@ -69,6 +69,7 @@ const (
 	opAdapt
 	opLoad
 	opSharedSrc
+	opColorPipeline
 	nOps
 )
 
@@ -85,7 +86,7 @@ var sharedSources = func() [2]*image.RGBA64 {
 	return out
 }()
 
-var opNames = [...]string{"From16Bit", "To16Bit", "From8Bit", "To8Bit", "LineariseColor", "EncodeColor", "LineariseImage", "EncodeImage", "ConvertImageToRGBA64", "Bradford.Apply", "meta.Load", "LineariseImage(shared source)"}
+var opNames = [...]string{"From16Bit", "To16Bit", "From8Bit", "To8Bit", "LineariseColor", "EncodeColor", "LineariseImage", "EncodeImage", "ConvertImageToRGBA64", "Bradford.Apply", "meta.Load", "LineariseImage(shared source)", "Color pipeline"}
 var spaceNames = [...]string{"srgb", "adobergb", "prophotorgb", "displayp3"}
 
 func (o opSpec) String() string {
@@ -95,7 +96,7 @@ func (o opSpec) String() string {
 	case opLoad:
 		return fmt.Sprintf("loader %d on corpus file %d", o.A%4, o.B)
 	case opConvertImage:
-		return fmt.Sprintf("prism.ConvertImageToRGBA64(YCbCr, par %d)", 1+o.B%3)
+		return fmt.Sprintf("prism.ConvertImageTo%s(%s, par %d)", [...]string{"RGBA64", "NRGBA", "RGBA"}[o.A>>20%3], [...]string{"YCbCr", "NRGBA", "RGBA64"}[o.A>>16%3], 1+o.B%3)
 	}
 	return fmt.Sprintf("%s.%s(%#x)", spaceNames[o.Space], opNames[o.Kind], o.A)
 }
@@ -135,7 +136,7 @@ func drawOp(t *tape.Tape, forceTable int) opSpec {
 			o.Kind = kinds[2]
 		}
 	} else {
-		o.Kind = t.Pick(3, 3, 1, 1, 3, 3, 2, 2, 1, 1, 2, 2)
+		o.Kind = t.Pick(3, 3, 1, 1, 3, 3, 2, 2, 1, 1, 2, 2, 2)
 		o.Space = t.Intn(4)
 		if o.Space == 3 && o.Kind <= opTo8 {
 			o.Space = t.Intn(3)
@@ -153,6 +154,56 @@ var spaceFns = [4]struct {
 	{adobergb.LineariseColor, adobergb.EncodeColor, func(d, s *image.RGBA64, p int) { adobergb.LineariseImage(d, s, p) }, func(d, s *image.RGBA64, p int) { adobergb.EncodeImage(d, s, p) }},
 	{prophotorgb.LineariseColor, prophotorgb.EncodeColor, func(d, s *image.RGBA64, p int) { prophotorgb.LineariseImage(d, s, p) }, func(d, s *image.RGBA64, p int) { prophotorgb.EncodeImage(d, s, p) }},
 	{displayp3.LineariseColor, displayp3.EncodeColor, func(d, s *image.RGBA64, p int) { displayp3.LineariseImage(d, s, p) }, func(d, s *image.RGBA64, p int) { displayp3.EncodeImage(d, s, p) }},
+}
+
+// pipeFns run the colour constructors and converters of one space on a drawn
+// colour: ColorFromNRGBA / ColorFromEncodedColor / ColorFromLinearColor ->
+// ToXYZ -> ToLAB -> ColorFromLAB -> ColorFromXYZ -> ToNRGBA / ToRGBA / ToRGBA64
+// (encode/decode entry points that reach the 8-bit and the lazily built 16-bit
+// tables from another side than From16Bit / To16Bit do).
+var pipeFns = [4]func(n color.NRGBA, l color.RGBA64) uint64{
+	func(n color.NRGBA, l color.RGBA64) uint64 {
+		c, a := srgb.ColorFromNRGBA(n)
+		c2, a2 := srgb.ColorFromEncodedColor(l)
+		c3, a3 := srgb.ColorFromLinearColor(l)
+		x := c.ToXYZ()
+		back := srgb.ColorFromXYZ(ciexyz.ColorFromLAB(x.ToLAB(ciexyz.D65), ciexyz.D65))
+		r1, r2, r3 := back.ToNRGBA(a), c2.ToRGBA(a2), c3.ToRGBA64(a3)
+		return packColors(r1, r2, r3)
+	},
+	func(n color.NRGBA, l color.RGBA64) uint64 {
+		c, a := adobergb.ColorFromNRGBA(n)
+		c2, a2 := adobergb.ColorFromEncodedColor(l)
+		c3, a3 := adobergb.ColorFromLinearColor(l)
+		x := c.ToXYZ()
+		back := adobergb.ColorFromXYZ(ciexyz.ColorFromLAB(x.ToLAB(ciexyz.D65), ciexyz.D65))
+		r1, r2, r3 := back.ToNRGBA(a), c2.ToRGBA(a2), c3.ToRGBA64(a3)
+		return packColors(r1, r2, r3)
+	},
+	func(n color.NRGBA, l color.RGBA64) uint64 {
+		c, a := prophotorgb.ColorFromNRGBA(n)
+		c2, a2 := prophotorgb.ColorFromEncodedColor(l)
+		c3, a3 := prophotorgb.ColorFromLinearColor(l)
+		x := c.ToXYZ()
+		back := prophotorgb.ColorFromXYZ(ciexyz.ColorFromLAB(x.ToLAB(ciexyz.D50), ciexyz.D50))
+		r1, r2, r3 := back.ToNRGBA(a), c2.ToRGBA(a2), c3.ToRGBA64(a3)
+		return packColors(r1, r2, r3)
+	},
+	func(n color.NRGBA, l color.RGBA64) uint64 {
+		c, a := displayp3.ColorFromNRGBA(n)
+		c2, a2 := displayp3.ColorFromEncodedColor(l)
+		c3, a3 := displayp3.ColorFromLinearColor(l)
+		x := c.ToXYZ()
+		back := displayp3.ColorFromXYZ(ciexyz.ColorFromLAB(x.ToLAB(ciexyz.D65), ciexyz.D65))
+		r1, r2, r3 := back.ToNRGBA(a), c2.ToRGBA(a2), c3.ToRGBA64(a3)
+		return packColors(r1, r2, r3)
+	},
+}
+
+func packColors(a color.NRGBA, b color.RGBA, c color.RGBA64) uint64 {
+	h := uint64(a.R)<<24 | uint64(a.G)<<16 | uint64(a.B)<<8 | uint64(a.A)
+	h = tape.Mix(h, uint64(b.R)<<24|uint64(b.G)<<16|uint64(b.B)<<8|uint64(b.A))
+	return tape.Mix(h, uint64(c.R)<<48|uint64(c.G)<<32|uint64(c.B)<<16|uint64(c.A))
 }
 
 func hashBytes(h uint64, b []byte) uint64 {
@@ -238,19 +289,49 @@ func execOp(o opSpec) uint64 {
 			spaceFns[o.Space].encImg(dst, src, par)
 		}
 		return hashBytes(uint64(w*16+h), dst.Pix)
+	case opColorPipeline:
+		n := color.NRGBA{R: uint8(o.A), G: uint8(o.A >> 8), B: uint8(o.A >> 16), A: uint8(o.A>>24) | 1}
+		al := uint16(o.C) | 0x8000
+		m := uint32(al) + 1
+		l := color.RGBA64{R: uint16(o.B & 0xFFFF % m), G: uint16(o.B >> 16 % m), B: uint16(o.C >> 16 % m), A: al}
+		return pipeFns[o.Space](n, l)
 	case opSharedSrc:
 		src := sharedSources[o.A%2]
 		dst := image.NewRGBA64(src.Rect)
 		spaceFns[o.Space].linImg(dst, src, 1+int(o.C%4))
 		return hashBytes(hashBytes(11, dst.Pix), src.Pix)
 	case opConvertImage:
-		src := image.NewYCbCr(image.Rect(0, 0, 3+int(o.A%3), 3+int(o.A>>8%3)), image.YCbCrSubsampleRatio420)
 		r := tape.NewRand(uint64(o.C))
-		r.Fill(src.Y)
-		r.Fill(src.Cb)
-		r.Fill(src.Cr)
-		out := prism.ConvertImageToRGBA64(src, 1+int(o.B%3))
-		return hashBytes(7, out.Pix)
+		rect := image.Rect(0, 0, 3+int(o.A%3), 3+int(o.A>>8%3))
+		par := 1 + int(o.B%3)
+		var in image.Image
+		switch o.A >> 16 % 3 {
+		case 0:
+			src := image.NewYCbCr(rect, image.YCbCrSubsampleRatio420)
+			r.Fill(src.Y)
+			r.Fill(src.Cb)
+			r.Fill(src.Cr)
+			in = src
+		case 1:
+			src := image.NewNRGBA(rect)
+			r.Fill(src.Pix)
+			in = src
+		default:
+			src := image.NewRGBA64(rect)
+			r.Fill(src.Pix)
+			for i := 0; i+7 < len(src.Pix); i += 8 { // valid premultiplied colours
+				src.Pix[i+6], src.Pix[i+7] = 0xFF, 0xFF
+			}
+			in = src
+		}
+		switch o.A >> 20 % 3 {
+		case 0:
+			return hashBytes(7, prism.ConvertImageToRGBA64(in, par).Pix)
+		case 1:
+			return hashBytes(8, prism.ConvertImageToNRGBA(in, par).Pix)
+		default:
+			return hashBytes(9, prism.ConvertImageToRGBA(in, par).Pix)
+		}
 	case opAdapt:
 		ad := ciexyz.AdaptBetweenXYYWhitePoints(ciexyy.D65, ciexyy.D50)
 		c := ad.Apply(ciexyz.Color{X: f01(o.A), Y: f01(o.B), Z: f01(o.C)})
